@@ -110,7 +110,8 @@ class Tree:
         if k["rst"] == "N":
             return None
         p = k["parent"]
-        if p is not None and self.k[p]["rstname"] == k["rstname"]:
+        # a parent without reset has no reset pin to inherit (Clock::inheritsResetPinSource, repair dd54172)
+        if p is not None and self.k[p]["rst"] != "N" and self.k[p]["rstname"] == k["rstname"]:
             return self.rstsrc(p)
         return i
 
